@@ -187,6 +187,38 @@ pub fn payload_family(tier: &str, rng: &mut Rng) -> Vec<Vec<u8>> {
             v.push((0..l).map(|i| [0x1b, 0x1b, 0x1b, 0x1b, 0x1b, 0x00, 0x55][i % 7]).collect());
         }
     }
+    // RUNPOS: a run of 4..6 0x1b bytes starting at every offset 0..=200 (chunking / counter boundaries), alone and after an earlier escape
+    for o in 0..=(if tier == "thorough" { 300 } else { 200 }) {
+        for r in [4usize, 5, 8] {
+            let mut p = vec![0x42u8; o];
+            p.extend(std::iter::repeat(0x1b).take(r));
+            p.extend([0x43, 0x44]);
+            v.push(p.clone());
+            if r == 4 {
+                let mut q = vec![0x1b; 4];
+                q.extend(&p);
+                v.push(q);
+            }
+        }
+    }
+    // CRCSPECIAL: one free byte swept over all values in front of tails that end in 1-3 0x1b / zeros without padding, so
+    // that the checksum bytes take every value - including 1b, 1a, 01, 00, which look like escape / end / start bytes
+    for tail in [vec![0x1bu8], vec![0x1b, 0x1b], vec![0x1b, 0x1b, 0x1b], vec![0x00], vec![0x00, 0x00, 0x00], vec![0x55]] {
+        for fixed in [0x76u8, 0x00] {
+            for x in 0..=255u8 {
+                // total length a multiple of 4 (no padding) and one variant with padding
+                for total in [4usize, 8, 6] {
+                    if tail.len() + 2 > total {
+                        continue;
+                    }
+                    let mut p = vec![fixed, x];
+                    p.extend(std::iter::repeat(0x42).take(total - 2 - tail.len()));
+                    p.extend(&tail);
+                    v.push(p);
+                }
+            }
+        }
+    }
     // corpus payloads and random payloads biased to 1b / 00 runs
     v.extend(corpus_payloads());
     let nrand = if tier == "thorough" { 2000 } else { 300 };
